@@ -336,6 +336,10 @@ pub fn run_history(cfg: &HistCfg) -> HistOut {
         let t0 = crate::now_ms();
         while done.load(Ordering::SeqCst) < (cfg.producers + cfg.consumers) as u64 {
             std::thread::yield_now();
+            if cfg!(miri) {
+                // no clocks / CPU probes under the interpreter: Miri itself reports deadlocks, its slowness is no verdict
+                continue;
+            }
             if crate::now_ms() - t0 > 10_000 {
                 // who is stuck? a thread burning CPU inside one operation that never completes is the verdict
                 let mut verdict = None;
